@@ -361,9 +361,10 @@ def stepBody (fa : SwapFn H) (c : Container H) : Container H × List Dec :=
 def temperingStep (c : Container H) : Container H × List Dec :=
   if c.graphs.length ≤ 1 then (c, []) else stepBody I (performSwaps I) c
 
-/-- `ParallelQmcTimeSteps::parallel_tempering_step` (only an *empty* ladder returns early) -/
+/-- `ParallelQmcTimeSteps::parallel_tempering_step` (returns early for ≤ 1 replica, like the serial step — since
+`fix:` f20b8b5, finding F30; before, only an *empty* ladder returned early) -/
 def parallelTemperingStep (c : Container H) : Container H × List Dec :=
-  if c.graphs.isEmpty then (c, []) else stepBody I (parallelPerformSwaps I) c
+  if c.graphs.length ≤ 1 then (c, []) else stepBody I (parallelPerformSwaps I) c
 
 /-- `add_qmc_stepper` -/
 def addStepper (c : Container H) (r : Replica H) : Option (Container H) :=
